@@ -32,12 +32,16 @@ def handleMrg (toks : List String) : String :=
       let kind := if kind0.length = 2 ∧ kind0.toList.getLast? = some '+' then (kind0.take 1).toString else kind0
       let ns := names.toList
       if nth = 0 ∨ nth > 4 ∨ ns.length ≠ nth ∨ adds = 0 ∨ adds > 5 ∨ (kind ≠ "c" ∧ kind ≠ "u" ∧ kind ≠ "h") ∨
-          ns.any (fun c => c < 'a' ∨ c > 'c') then "bad-op"
+          ns.any (fun c => ¬ (('a' ≤ c ∧ c ≤ 'c') ∨ ('A' ≤ c ∧ c ≤ 'C'))) then "bad-op"
       else
-        let total (c : Char) : Nat := ((List.range nth).zip ns).foldl (fun acc (i, d) => if d = c then acc + adds * (1 + i) else acc) 0
-        let present := ['a', 'b', 'c'].filter (fun c => ns.contains c)
-        let rec_ := ",".intercalate (present.map fun c => s!"{c}:{total c}")
-        let got := ",".intercalate (present.map fun c => s!"{c}:{total c}/1")
+        -- lower case: the shared instrument of that letter; upper case: thread i's own instrument on its own meter
+        let idx := (List.range nth).zip ns
+        let shared (c : Char) : Nat := idx.foldl (fun acc (i, d) => if d = c then acc + adds * (1 + i) else acc) 0
+        let own := ['A', 'B', 'C'].flatMap fun c => (idx.filter (fun (_, d) => d = c)).map fun (i, _) => (s!"{c}{i}", adds * (1 + i))
+        let low := (['a', 'b', 'c'].filter (fun c => ns.contains c)).map fun c => (s!"{c}", shared c)
+        let all := own ++ low
+        let rec_ := ",".intercalate (all.map fun (k, v) => s!"{k}:{v}")
+        let got := ",".intercalate (all.map fun (k, v) => s!"{k}:{v}/1")
         s!"done=1 rec={rec_} got={got}"
     | _, _ => "bad-op"
   | _ => "bad-op"
